@@ -291,6 +291,12 @@ pub fn expect_tag(exp: &mut Expected, p: &str, region: &[u8], it: &Item, kind: u
             exp.u(q("oem_product_name_ptr"), le32(b, c + 26) as u64);
             exp.u(q("oem_product_revision_ptr"), le32(b, c + 30) as u64);
             let m = off + 16 + 512;
+            if b[m + 27] > 7 {
+                // not one of the 8 defined memory models: the mode info cannot be
+                // handed out as a typed value (controlled panic)
+                exp.panic(format!("{p}.mi"));
+                return;
+            }
             let q = |n: &str| format!("{p}.mi.{n}");
             exp.u(q("mode_attributes"), le16(b, m) as u64);
             exp.u(q("window_a_attributes"), b[m + 2] as u64);
